@@ -42,7 +42,8 @@ def run(ctx):
     jobs = []
     for n, s in enumerate(scripts):
         s = dict(cfg={k: v for k, v in s["cfg"].items()}, tdts=s["tdts"], simdts=s["simdts"], flog=s["flog"],
-                 probes=[0, 2, 3][n % 3], screening=bool((n // 3) % 2), progress=[10 ** 9, 3, 0][(n // 6) % 3])
+                 probes=[0, 2, 3][n % 3], screening=bool((n // 3) % 2), progress=[10 ** 9, 3, 0][(n // 6) % 3],
+                 warn_error=(n % 5 == 2))
         jobs.append(("script", s))
     # longer samples
     for n in range(6 if ctx.quick else 60):
